@@ -187,6 +187,12 @@ def step (d : DState) (line : String) : DState × List String :=
     match d.parser.parse source offset with
     | .ok p => ({ d with parser := p }, ["ok " ++ parserD p])
     | .error e => (d, ["err " ++ e.name])
+  | ["lines", src, off] =>
+    let source := if src == "N" then none else some (unhexs (src.drop 1).toString)
+    let offset := if off == "N" then none else some off.toNat!
+    match d.parser.parseLines source offset with
+    | .ok (ps, fin) => ({ d with parser := fin }, ["ok " ++ " | ".intercalate ((ps ++ [fin]).map parserD)])
+    | .error e => (d, ["err " ++ e.name])
   | ["validate"] =>
     match d.parser.validate with
     | .ok _ => (d, ["ok"])
